@@ -713,6 +713,11 @@ def symlink_leg(acc):
         ("linked-file-no-config-at-link", {CWD + "/b/stylua.toml": M.toml_text(far), CWD + "/b/real.lua": probe},
          {CWD + "/a/link.lua": "../b/real.lua"}, ["a/link.lua"], CWD + "/b/real.lua", want_default),
     ]
+    # the configuration file itself is a symbolic link to a file kept elsewhere
+    scenarios.append(("linked-configuration", {CWD + "/stylua.toml": M.toml_text(far), CWD + "/shared/team.toml": M.toml_text(near), CWD + "/app/src/x.lua": probe},
+                      {CWD + "/app/stylua.toml": "../shared/team.toml"}, ["app/src/x.lua"], CWD + "/app/src/x.lua", want_near))
+    scenarios.append(("linked-dot-configuration", {CWD + "/shared/team.toml": M.toml_text(near), CWD + "/tool/y.lua": probe},
+                      {CWD + "/tool/.stylua.toml": "../shared/team.toml"}, ["tool"], CWD + "/tool/y.lua", want_near))
     for tag, files, links, argv, target, want in scenarios:
         case = {"prop": PROP, "family": "symlink", "tag": tag, "files": files, "links": links, "cwd": CWD, "argv": argv, "env": {}, "stdin": None}
         o = M.run_case(case, strace=False)
